@@ -2,8 +2,7 @@
 pub enum JVal {
     Null,
     Bool(bool),
-    I64(i64),
-    U64(u64),
+    Int(int),
     Str(Seq<char>),
     Arr(Seq<JVal>),
     Obj(Seq<(Seq<char>, JVal)>),   // members in the order they are written
@@ -17,8 +16,7 @@ pub open spec fn enc(j: JVal) -> Seq<u8>
         JVal::Null => seq![0x6eu8, 0x75u8, 0x6cu8, 0x6cu8],
         JVal::Bool(true) => seq![0x74u8, 0x72u8, 0x75u8, 0x65u8],
         JVal::Bool(false) => seq![0x66u8, 0x61u8, 0x6cu8, 0x73u8, 0x65u8],
-        JVal::I64(n) => bytes_of(itoa::dec_i64(n)),
-        JVal::U64(n) => bytes_of(itoa::dec_u64(n)),
+        JVal::Int(n) => bytes_of(itoa::dec_int(n)),
         JVal::Str(s) => esc(s),
         JVal::Arr(a) => seq![0x5bu8] + enc_elems(a, a.len() as int) + seq![0x5du8],
         JVal::Obj(o) => seq![0x7bu8] + enc_members(o, o.len() as int) + seq![0x7du8],
